@@ -44,6 +44,7 @@ def check(ctx):
     r19_2_3(ctx, st)
     r19_4(ctx, st)
     r19_5(ctx, st)
+    r19_6(ctx, st)
     ctx.not_decided.append("floating-point rounding of the two averages (summation order can change the last digits before round())")
 
 
@@ -164,7 +165,8 @@ def r19_1_parser(ctx):
             for p in paths:
                 consistent = True
                 for t, pol in p.tests():
-                    if names_in(t) <= match_vars or (isinstance(t, ast.Call) and norm(t.func).startswith("re.")):
+                    if (names_in(t) & match_vars) or any(isinstance(c, ast.Call) and norm(c.func).startswith("re.") for c in ast.walk(t)):
+                        # the well-formedness gate (decided by C16's grammar rules): the table is over well-formed fields
                         if pol is not True:
                             consistent = False
                         continue
@@ -543,3 +545,33 @@ def r19_5(ctx, m):
             for a in tmpl.arity_errors(parts):
                 bad = ("arity", a[2], "")
             ctx.check(bad is None, "R19.5", f.where(n), "the report prints each run counter under the label of its own operation", key_of(f, f"cigar-labels:{bad}"), **({"mismatch": bad} if bad else {}))
+
+
+def r19_6(ctx, m):
+    """Averages over the per-read table: the table is empty when the file has no primary record, so a division by
+    its size must be guarded (the report must exist for every GAF)."""
+    from .c09 import guards_of
+
+    f = m.f
+    tables = set()
+    for s in walk_stmts(m.loop.body):
+        if isinstance(s, ast.Assign) and isinstance(s.targets[0], ast.Subscript) and isinstance(s.value, ast.Call):
+            tables.add(norm(s.targets[0].value))
+    n = 0
+    for s in walk_stmts(f.node.body):
+        if any(x is s for x in ast.walk(m.loop)):
+            continue
+        divs = []
+        if isinstance(s, ast.AugAssign) and isinstance(s.op, (ast.Div, ast.FloorDiv)):
+            divs.append(s.value)
+        for b in ast.walk(s) if not isinstance(s, (ast.If, ast.For, ast.While, ast.With, ast.Try)) else []:
+            if isinstance(b, ast.BinOp) and isinstance(b.op, (ast.Div, ast.FloorDiv)):
+                divs.append(b.right)
+        for d in divs:
+            for t in tables:
+                if norm(d) == f"len({t})":
+                    n += 1
+                    g = guards_of(f.node, s)
+                    ok = any(canon_test(x, pol) in ((f"len({t}) > 0", True), (f"len({t}) != 0", True), (f"len({t}) == 0", False), (t, True), (f"len({t})", True)) for x, pol in g)
+                    ctx.check(ok, "R19.6", f.where(s), f"the division by len({t}) is guarded: a file without primary records leaves the per-read table empty and must still be reported", key_of(f, f"div-by-len:{norm(s)[:60]}"), guards=[(norm(x), pol) for x, pol in g])
+    ctx.require_count("R19.6", n, 1, f.where(), "divisions by the size of the per-read table")
